@@ -76,16 +76,28 @@ def resolve(n, ext):
 def oracle_resolv(case, impl):
     """direct check of C19 on what the real SetDNS/ResetDNS left in the jail"""
     f = dict(x.split("=", 1) for x in case.split(" ")[1:])
-    m = re.match(r"st=(\S+) live=(\S+) bak=(\S+) tmp=(\S+) ext=(\S+)$", impl)
+    m = re.match(r"st=(\S+) live=(\S+) bak=(\S+) tmp=(\S+) ext=(\S+?)(?: nm=([01]))?$", impl)
     if not m:
         return "unexpected harness output " + impl[:120]
     st, live2, bak2, tmp2 = m.group(1), node(m.group(2)), node(m.group(3)), node(m.group(4))
     if m.group(5) != "ok":
         return "a file outside the three managed names was modified"
-    if st not in ("ok", "errOpen", "errScan", "killed"):
+    if st not in ("ok", "errOpen", "errScan", "killed", "errNM"):
         return "operation failed unexpectedly: " + st[:120]
     live, bak, ext = node(f["live"]), node(f["bak"]), parse_ext(f["ext"])
     op, crash = f["op"], f["crash"]
+    if "nm" in f:
+        # NetworkManager installed, its reload fails: what happens to resolv.conf must be what happens without it.
+        # errNM = only the NetworkManager half failed; the resolv.conf half is judged as completed
+        if op == "D":
+            if bak[0] != "A" and not (live2 == bak and bak2[0] == "A"):
+                return ("deactivation did not restore resolv.conf from its backup (status %s): a failing NetworkManager reload "
+                        "must not keep the original from being put back" % st)
+            op = "d"
+        elif op.startswith("A:"):
+            op = "a:" + op[2:]
+        if st == "errNM":
+            st = "ok"
     if op.startswith("e:"):
         return None
     if f["orig"] != "?":
